@@ -88,3 +88,10 @@ chk("C08", "GEN+SQFSCK", "exploration",
     "(in-flight fragment blocks), each file read back byte-exact in every execution.",
     "Block/tail alphabet of 5+4 contents, <=4 files (5 for tails-only). Trusts SQFSCK.",
     "bounded exhaustive enumeration of inputs under forced checksum collisions + stateless model checking of in-flight states", "3/C08")
+
+chk("C17", "GEN+SQFSCK", "exploration",
+    "All subsets of <=3 (quick) / <=4 (thorough) files from a 7-file alphabet x every sort file over {-1,0,1}^k priorities, every flag subset per file, exact/glob/glob_no_path patterns, "
+    "overlapping lines in both orders, quoted names, non-matching lines x {default,-T,-e,-b 8192}; the decoded layout must show exactly the documented effect (stable priority order of blocks and "
+    "tails, first match wins, per-flag storage facts, default policy for unflagged files, -T only for files > B, export table iff -e) with contents unchanged and the image valid.",
+    "Small scope (<=4 files, 2 directories); fnmatch modelled for * and ? only. Trusts SQFSCK.",
+    "bounded exhaustive enumeration of trees x sort files x options against layout facts from an independent decoder", "3/C17")
